@@ -7,6 +7,7 @@ FAMILIES = {
         {'family': 'tlc', 'knobs': {}, 'quick': 320, 'thorough': 3200, 'first': 500000},
         {'family': 'tlccover', 'knobs': {}, 'quick': 0, 'thorough': 0, 'first': 700000},
         {'family': 'core', 'knobs': {}, 'quick': 350, 'thorough': 5000},
+        {'family': 'idwrap', 'knobs': {}, 'quick': 200, 'thorough': 3000, 'first': 300000},
         {'family': 'core', 'knobs': {'frag': 64, 'max_inter': 4, 'min_inter': 2, 'p_cancel': 0.0, 'p_error': 0.02}, 'quick': 150,
          'thorough': 3000, 'first': 100000},
     ],
@@ -34,6 +35,8 @@ FAMILIES = {
     'C13': [
         {'family': 'core', 'knobs': {'max_steps': 20}, 'quick': 120, 'thorough': 1500},
         {'family': 'hostile', 'knobs': {'classes': ['duplicate_request'], 'p_raise': 0.0}, 'quick': 120, 'thorough': 1500, 'first': 100000},
+        # ids wrap around and are used again within one connection (id space reduced to 0..7 / 0..15)
+        {'family': 'idwrap', 'knobs': {}, 'quick': 300, 'thorough': 5000, 'first': 300000},
     ],
     'C08': [
         {'family': 'tlc', 'knobs': {}, 'quick': 320, 'thorough': 3200, 'first': 500000},
@@ -81,5 +84,7 @@ FAMILIES = {
         {'family': 'tlc', 'knobs': {}, 'quick': 320, 'thorough': 3200, 'first': 500000},
         {'family': 'tlccover', 'knobs': {}, 'quick': 0, 'thorough': 0, 'first': 700000},
         {'family': 'core', 'knobs': {'p_cancel': 0.15, 'p_error': 0.15}, 'quick': 400, 'thorough': 6000},
+        # "... and the stream's id can be used again": ids wrap around and are used again within one connection
+        {'family': 'idwrap', 'knobs': {}, 'quick': 200, 'thorough': 3000, 'first': 300000},
     ],
 }
